@@ -47,14 +47,24 @@ Step(f, c, a) ==
     /\ start' = start
     /\ act' = [op |-> "step", f |-> f, d |-> Dispatch(cur.cls, f, c)]
 
+\* the object is its own right operand (m @ m, m @= m, a @= a, ...): same table, value l . l
+SelfStep(f) ==
+    /\ hist = <<>> /\ cur.k \in {"A", "M"}
+    /\ cur' = Result(cur, f, cur)
+    /\ acc' = MatMul(acc, cur.m)
+    /\ hist' = Append(hist, [f |-> f, c |-> "self", a |-> <<>>])
+    /\ start' = start
+    /\ act' = [op |-> "step", f |-> f, d |-> Dispatch(cur.cls, f, cur.cls)]
+
 \* right operands: rotations of all four classes, and one vector per vector class (always an error)
 Next == \E f \in UseForms, c \in Classes : \E a \in SrcOf(c, {<<1, 2, 3>>}, RhsAngs) : Step(f, c, a)
+        \/ \E g \in UseForms : MaxLen > 0 /\ SelfStep(g)
 Spec == Init /\ [][Next]_vars
 
 (* ---- the listed property, on the exact domain ------------------------------ *)
 IsRot(v) == v.k \in {"A", "M"} /\ SmallDen(v.m) => IsRotation(v.m)
 \* every matrix built from an Euler angle / every product is a proper rotation
-Proper == IsRot(cur) /\ IsRotation(acc)
+Proper == IsRot(cur) /\ (SmallDen(acc) => IsRotation(acc))
 \* Source convention: the expanded formula is roll . pitch . yaw
 Convention == cur.pt.ok => FromAngleClosed(cur.pt.ang) = FromAngle(cur.pt.ang)
 \* ((s @ r1) @ r2) ... = s @ (r1 @ r2 @ ...), and Vec @ Angle = Vec @ Matrix.from_angle(Angle)
